@@ -301,7 +301,7 @@ func zzCheckQuiescent(mgr *Manager, model *zzWorld, label string) {
 		if f == zzHalfWritten {
 			continue // left behind by a killed writer: not served, nobody's to delete (C12)
 		}
-		if filepath.Ext(f) == ".idx" || !zz.Symbolic() {
+		if filepath.Ext(f) == ".idx" {
 			onDisk = append(onDisk, f)
 		}
 	}
